@@ -77,6 +77,10 @@ func (r *Reqs) Previous(ctx context.Context, p module.Version) (module.Version, 
 			selected = v.Version
 		}
 	}
+	if selected == "" {
+		// mvs.DowngradeReqs: "none" if no prior version is known.
+		selected = "none"
+	}
 	return module.Version{Path: p.Path, Version: selected}, nil
 }
 
